@@ -37,6 +37,21 @@ func (o *Obligation) script(model bool) string {
 		b.WriteString(h)
 		b.WriteByte('\n')
 	}
+	quantified := strings.Contains(o.goal, "(forall ") || strings.Contains(o.goal, "(exists ")
+	if !quantified {
+		for _, l := range e.body[:o.prefix] {
+			if strings.Contains(l, "(forall ") || strings.Contains(l, "(exists ") {
+				quantified = true
+				break
+			}
+		}
+	}
+	if quantified {
+		b.WriteString("(declare-fun eidx (" + bv64 + " " + bv64 + ") " + bv64 + ")\n")
+		b.WriteString("(assert (forall ((ea " + bv64 + ") (eb " + bv64 + ")) (! (= (eidx ea eb) (bvadd ea eb)) :pattern ((eidx ea eb)))))\n")
+	} else {
+		b.WriteString("(define-fun eidx ((ea " + bv64 + ") (eb " + bv64 + ")) " + bv64 + " (bvadd ea eb))\n")
+	}
 	for _, d := range e.decls {
 		b.WriteString(d)
 		b.WriteByte('\n')
@@ -75,11 +90,17 @@ func runSolver(ctx context.Context, s Solver, file string) solveResult {
 	_ = cmd.Run()
 	ms := time.Since(start).Milliseconds()
 	text := out.String()
-	first := strings.TrimSpace(strings.SplitN(text, "\n", 2)[0])
 	v := "error"
-	switch first {
-	case "unsat", "sat", "unknown", "timeout":
-		v = first
+	for _, ln := range strings.Split(text, "\n") {
+		ln = strings.TrimSpace(ln)
+		if ln == "" || strings.HasPrefix(ln, "WARNING") || strings.HasPrefix(ln, "(warning") {
+			continue
+		}
+		switch ln {
+		case "unsat", "sat", "unknown", "timeout":
+			v = ln
+		}
+		break
 	}
 	if ctx.Err() != nil && v == "error" {
 		v = "timeout"
